@@ -815,6 +815,114 @@ Proof.
   - now rewrite (table_bool col H N), (table_bool col' H' N').
 Qed.
 
+(* ------------------------------------------------------------------ the token test in plain terms *)
+(* FINITE: the generated threshold is not negative *)
+Lemma above_thresh_0 : above_thresh 0 = false.
+Proof. vm_compute. reflexivity. Qed.
+
+Lemma above_thresh_max a b : above_thresh (Nat.max a b) = above_thresh a || above_thresh b.
+Proof.
+  destruct (Nat.max_spec a b) as [[L ->]|[L ->]].
+  - destruct (above_thresh a) eqn:A; simpl; auto. apply (above_thresh_mono a b); auto. lia.
+  - destruct (above_thresh b) eqn:B; simpl; [|now rewrite orb_false_r].
+    rewrite (above_thresh_mono b a); auto.
+Qed.
+
+Lemma above_list_max l : above_thresh (list_max l) = existsb above_thresh l.
+Proof.
+  induction l as [|x r IH]; simpl; [apply above_thresh_0|]. now rewrite above_thresh_max, IH.
+Qed.
+
+Lemma above_list_min m : m <> [] -> above_thresh (list_min m) = forallb above_thresh m.
+Proof.
+  intros Hne. destruct (list_min_spec m Hne) as [Hin Hle].
+  destruct (forallb above_thresh m) eqn:F.
+  - rewrite forallb_forall in F. apply F, Hin.
+  - destruct (above_thresh (list_min m)) eqn:A; auto.
+    rewrite <- F. symmetry. apply forallb_forall. intros y Hy.
+    apply (above_thresh_mono (list_min m) y); auto.
+Qed.
+
+Lemma forallb_map_comp {A B} (f : B -> bool) (g : A -> B) l : forallb f (map g l) = forallb (fun x => f (g x)) l.
+Proof. induction l; simpl; auto. now rewrite IHl. Qed.
+
+Lemma forallb_ext_in {A} (f g : A -> bool) l : (forall x, In x l -> f x = g x) -> forallb f l = forallb g l.
+Proof.
+  induction l as [|x r IH]; simpl; auto. intros H. rewrite (H x), IH; auto.
+Qed.
+
+Lemma above_min_count_by {A} (eqb : A -> A -> bool) l :
+  above_thresh (min_count_by eqb l) =
+  match l with [] => false | _ => forallb (fun x => above_thresh (count_by eqb x l)) l end.
+Proof.
+  unfold min_count_by. destruct l as [|a r]; [apply above_thresh_0|].
+  rewrite above_list_min by discriminate. apply forallb_map_comp.
+Qed.
+
+Lemma count_by_app {A} (eqb : A -> A -> bool) x l1 l2 :
+  count_by eqb x (l1 ++ l2) = count_by eqb x l1 + count_by eqb x l2.
+Proof. unfold count_by. now rewrite filter_app, app_length. Qed.
+
+Lemma count_by_NoDup tok l :
+  NoDup l -> count_by String.eqb tok l = if existsb (String.eqb tok) l then 1 else 0.
+Proof.
+  induction l as [|a r IH]; intros ND; [reflexivity|]. inversion ND; subst.
+  unfold count_by in *. simpl. destruct (String.eqb tok a) eqn:E; simpl.
+  - apply String.eqb_eq in E. subst a. rewrite (IH H2).
+    destruct (existsb (String.eqb tok) r) eqn:X; auto.
+    apply existsb_exists in X. destruct X as [y [Iy Ey]]. apply String.eqb_eq in Ey. subst y. contradiction.
+  - apply IH, H2.
+Qed.
+
+Lemma row_tokens_NoDup c row : NoDup (row_tokens c row).
+Proof. unfold row_tokens. destruct (String.eqb (strip row) EmptyString); [constructor | apply NoDup_nodup]. Qed.
+
+(* the multiplicity of a token among all exploded tokens = the number of rows containing it *)
+Lemma token_count_is_row_count c tok ser :
+  count_by String.eqb tok (flat_map (fun x => row_tokens c (cell_string x)) ser) = rows_with_token c tok ser.
+Proof.
+  unfold rows_with_token. induction ser as [|x r IH]; [reflexivity|].
+  simpl. rewrite count_by_app, IH, (count_by_NoDup tok _ (row_tokens_NoDup c (cell_string x))).
+  destruct (existsb (String.eqb tok) (row_tokens c (cell_string x))); reflexivity.
+Qed.
+
+Lemma above_sep_min_count c ser :
+  above_thresh (min_count_by String.eqb (flat_map (fun x => row_tokens c (cell_string x)) ser)) =
+  tokens_repeated c ser.
+Proof.
+  rewrite above_min_count_by. unfold tokens_repeated.
+  destruct (flat_map (fun x => row_tokens c (cell_string x)) ser) as [|t ts] eqn:E; auto.
+  rewrite <- E. apply forallb_ext_in. intros tok _. now rewrite token_count_is_row_count.
+Qed.
+
+Theorem multicat_test_is_spec ser : above_thresh (max_min_count ser) = multicat_spec ser.
+Proof.
+  unfold max_min_count, multicat_spec. rewrite above_list_max.
+  induction possible_seps as [|sep r IH]; simpl; auto.
+  rewrite existsb_app, IH. f_equal. unfold sep_min_count.
+  destruct (sep_char sep) as [c|]; simpl; auto.
+  now rewrite orb_false_r, above_sep_min_count.
+Qed.
+
+(* ... and the specification in words *)
+Lemma multicat_spec_iff ser :
+  multicat_spec ser = true <->
+  exists sep c, In sep possible_seps /\ sep_char sep = Some c /\
+    (exists tok, In tok (flat_map (fun x => row_tokens c (cell_string x)) ser)) /\
+    (forall tok, In tok (flat_map (fun x => row_tokens c (cell_string x)) ser) ->
+                 above_thresh (rows_with_token c tok ser) = true).
+Proof.
+  unfold multicat_spec. rewrite existsb_exists. split.
+  - intros [sep [I H]]. destruct (sep_char sep) as [c|] eqn:E; [|discriminate].
+    exists sep, c. repeat split; auto; unfold tokens_repeated in H;
+      destruct (flat_map (fun x => row_tokens c (cell_string x)) ser) as [|t ts] eqn:F; try discriminate.
+    + exists t. simpl. auto.
+    + intros tok It. rewrite forallb_forall in H. auto.
+  - intros [sep [c [I [E [[t It] H]]]]]. exists sep. split; auto. rewrite E. unfold tokens_repeated.
+    destruct (flat_map (fun x => row_tokens c (cell_string x)) ser) as [|t0 ts] eqn:F; [destruct It|].
+    apply forallb_forall. exact H.
+Qed.
+
 (* ------------------------------------------------------------------ frame level *)
 Definition typed_columns (df : list (string * list cell)) : list (string * stype) :=
   flat_map (fun nc => match infer_series_stype (snd nc) with
